@@ -23,6 +23,9 @@ import CelloProofs.Lemmas.MarkRetype
 import CelloProofs.Lemmas.MarkBits
 import CelloProofs.Lemmas.MarkRelease
 import CelloProofs.Lemmas.MarkWitness
+import Cello.HeapMid
+import CelloGen.GcMid
+import CelloProofs.Lemmas.MarkMid
 
 namespace Cello.Heap
 
@@ -929,3 +932,600 @@ example {σ : Type} (S : MarkSet σ) (d : Nat) : (level S Cfg.current danglingHe
 example : (level listSet Cfg.current selfTupleHeap 3).item 4096 [] = .ok [4096] := by decide
 
 end Cello.Heap
+
+
+/-! ### a collection INSIDE a container operation: mark-safe intermediate states
+
+  `Cello.Heap.Mid` (Cello/HeapMid.lean) runs the statement lists that translate/g_gcmark.py extracts from Array.c, List.c, Table.c and Tree.c
+  (`CelloGen/GcMid.lean`: where `destruct` / `assign` of an element stand relative to `nitems--`, `List_Unlink`, `memset`, `free`, …) and records,
+  for every call of element code, what the container's Mark instance presents at that moment (`View`).  `MarkSafe`: every view reads only
+  constructed elements and presents every element the container holds when the operation completes (operand elements excepted: the caller
+  holds the operand).  `C01_mid_op_collection_safe` turns that into the property: a collection that runs inside such a call finalises nothing
+  that is reachable when the operation completes. -/
+
+namespace Cello.Heap.Mid
+open CelloGen.GcMid
+variable {α : Type}
+
+/-- where the model uses one statement list for several branches of the source, the branches agree; `X_Assign` empties the target through
+    `X_Clear`; `Tree_Mark` presents nothing when `nitems is 0` -/
+theorem C01_mid_source_consistent :
+    treeSetRoot = treeSetLeft ∧ treeSetLeft = treeSetRight ∧ listRem = listPopAt ∧ listPop.tail = listPopAt.tail ∧
+    arrayAssignHead.head? = some Ev.clear ∧ treeClear.head? = some Ev.clear ∧ treeMarkEmptyWhenLen0 = true := by decide
+
+/-- **Array_Pop_At (and Array_Rem, which calls it): `destruct(Array_Item(a, i))` runs while `nitems` still counts every element.**  For every
+    Array (any block size, whatever the spare slots hold) and every index: inside the destructor of the removed element `Array_Mark`
+    presents exactly the elements the Array held, all of them constructed — in particular every element it keeps.  The statement order is
+    `CelloGen.GcMid.arrayPopAt`, re-extracted from src/Array.c on every run: with `a->nitems--` in front of `destruct` (seeded change c01_h)
+    this theorem is false (`C01_array_pop_at_dec_first_refuted`). -/
+theorem C01_array_pop_at_mark_safe (elems : List α) (spare : List (Cell α)) (env : Env α) (hs : env.shape = Shape.array)
+    (hi : env.i < elems.length) :
+    MarkSafe env ((Mach.initCap elems spare).exec env (prog .array false .popAt)) := by
+  -- the one view is the array as it was: `nitems` is decremented after the destructor has run
+  have hview : ∀ st : Mach α, st.views = [⟨Tag.dtor, elems.map some⟩] → ∀ v ∈ st.views,
+      (∀ c ∈ v.cells, c ≠ none) ∧ ∀ x, some x ∈ elems.map some → some x ∈ v.cells := by
+    intro st hst v hv
+    rw [hst, List.mem_singleton] at hv
+    subst hv
+    exact ⟨all_some_map elems, fun x hx => hx⟩
+  have hcnt := moveCount_neg_one hi
+  have hlen : env.i + 1 + (elems.length - env.i - 1) ≤ (elems.map some ++ spare).length := by simp; omega
+  have hk : elems.length - 1 = env.i + (elems.length - env.i - 1) := by omega
+  have hfin : ∀ (cells : List (Cell α)) (x : α),
+      (cells = moveDown (elems.map some ++ spare) env.i (elems.length - env.i - 1) ∨
+       cells = (moveDown (elems.map some ++ spare) env.i (elems.length - env.i - 1)).take (elems.length - 1)) →
+      some x ∈ takePad (elems.length - 1) cells → some x ∈ elems.map some := by
+    intro cells x hc hx
+    have h1 : some x ∈ cells.take (elems.length - 1) := by
+      rcases mem_takePad hx with h | h
+      · exact h
+      · cases h
+    have h2 : some x ∈ (moveDown (elems.map some ++ spare) env.i (elems.length - env.i - 1)).take (elems.length - 1) := by
+      rcases hc with rfl | rfl
+      · exact h1
+      · rw [List.take_take, Nat.min_self] at h1; exact h1
+    rw [hk] at h2
+    have h3 := mem_take_moveDown hlen h2
+    have h4 : env.i + 1 + (elems.length - env.i - 1) = elems.length := by omega
+    rw [h4] at h3
+    have h5 : (elems.map some ++ spare).take elems.length = elems.map some := List.take_left' (by simp)
+    rw [h5] at h3
+    exact h3
+  intro v hv
+  simp only [prog, Mach.exec, Mach.instr, arrayPopAt, Mach.run, Mach.step, Mach.view, Mach.initCap, Mach.presented, presented, hs,
+    Shape.array, List.foldl, Bool.false_and, Bool.false_eq_true, if_false, if_true, takePad_map_some, hcnt, Mach.final] at hv ⊢
+  split at hv <;> rename_i hb
+  · obtain ⟨h1, h2⟩ := hview _ rfl v hv
+    refine ⟨h1, fun x hx => Or.inr (Or.inr (h2 x ?_))⟩
+    simp only [hb, if_true, mem_filterMap_id] at hx
+    exact hfin _ x (Or.inr rfl) hx
+  · obtain ⟨h1, h2⟩ := hview _ rfl v hv
+    refine ⟨h1, fun x hx => Or.inr (Or.inr (h2 x ?_))⟩
+    simp only [hb, if_false, mem_filterMap_id] at hx
+    exact hfin _ x (Or.inl rfl) hx
+
+/-- Array_Pop -/
+theorem C01_array_pop_mark_safe (elems : List α) (k : Nat) (env : Env α) (hs : env.shape = Shape.array) :
+    MarkSafe env ((Mach.initCap elems (List.replicate k none)).exec env (prog .array false .pop)) := by
+  apply markSafe_of_views_pre (exec_from env elems _ _ (initCap_from env elems _ (spare_from env elems k)))
+  intro v hv
+  simp only [prog, Mach.exec, Mach.instr, arrayPop, Mach.run, Mach.step, Mach.view, Mach.initCap, Mach.presented, presented, hs,
+    Shape.array, List.foldl, Bool.false_and, Bool.false_eq_true, if_false, if_true, takePad_map_some] at hv
+  split at hv <;> simp at hv <;> rw [hv]
+
+/-- Array_Push -/
+theorem C01_array_push_mark_safe (elems : List α) (k : Nat) (env : Env α) (hs : env.shape = Shape.array) :
+    MarkSafe env ((Mach.initCap elems (List.replicate k none)).exec env (prog .array false .push)) := by
+  apply markSafe_of_views_cover (exec_from env elems _ _ (initCap_from env elems _ (spare_from env elems k)))
+  have hrun : ∃ rest, (Mach.initCap elems (List.replicate k none)).exec env (prog .array false .push) =
+      Mach.run env [.alloc .last, .assign .last] { cells := elems.map some ++ none :: rest, n := elems.length + 1 } := by
+    by_cases hk : k = 0
+    · subst hk
+      have : elems.length + 1 + (elems.length + 1) / 2 - elems.length = (elems.length + 1) / 2 + 1 := by omega
+      refine ⟨List.replicate ((elems.length + 1) / 2) none, ?_⟩
+      simp [prog, Mach.exec, Mach.instr, arrayPush, Mach.run, Mach.step, Mach.initCap, this, List.replicate_succ]
+    · obtain ⟨k', rfl⟩ := Nat.exists_eq_succ_of_ne_zero hk
+      refine ⟨List.replicate k' none, ?_⟩
+      simp [prog, Mach.exec, Mach.instr, arrayPush, Mach.run, Mach.step, Mach.initCap, List.replicate_succ]
+  obtain ⟨rest, hrun⟩ := hrun
+  rw [hrun, array_push_state elems rest env hs]
+  intro v hv
+  rw [List.mem_singleton] at hv
+  subst hv
+  refine ⟨?_, fun x hx => List.mem_append_left _ (some_mem_map_some.mpr hx)⟩
+  intro c hc
+  rcases List.mem_append.mp hc with h | h
+  · exact all_some_map elems c h
+  · rw [List.mem_singleton] at h; rw [h]; simp
+
+/-- Array_Push_At: `nitems++`, room, the elements from `i` on move up, the slot is zeroed, then `assign`: inside the Assign instance the Array
+    holds every old element and the new one -/
+theorem C01_array_push_at_mark_safe (elems : List α) (k : Nat) (env : Env α) (hs : env.shape = Shape.array) (hi : env.i ≤ elems.length) :
+    MarkSafe env ((Mach.initCap elems (List.replicate k none)).exec env (prog .array false .pushAt)) := by
+  apply markSafe_of_views_cover (exec_from env elems _ _ (initCap_from env elems _ (spare_from env elems k)))
+  have hrun : ∃ rest, (Mach.initCap elems (List.replicate k none)).exec env (prog .array false .pushAt) =
+      Mach.run env [.moveUp (-1), .alloc .idx, .assign .idx] { cells := elems.map some ++ none :: rest, n := elems.length + 1 } := by
+    by_cases hk : k = 0
+    · subst hk
+      have : elems.length + 1 + (elems.length + 1) / 2 - elems.length = (elems.length + 1) / 2 + 1 := by omega
+      refine ⟨List.replicate ((elems.length + 1) / 2) none, ?_⟩
+      simp [prog, Mach.exec, Mach.instr, arrayPushAt, Mach.run, Mach.step, Mach.initCap, this, List.replicate_succ]
+    · obtain ⟨k', rfl⟩ := Nat.exists_eq_succ_of_ne_zero hk
+      refine ⟨List.replicate k' none, ?_⟩
+      simp [prog, Mach.exec, Mach.instr, arrayPushAt, Mach.run, Mach.step, Mach.initCap, List.replicate_succ]
+  obtain ⟨rest, hrun⟩ := hrun
+  have hsplit : elems.map some = (elems.map some).take env.i ++ (elems.map some).drop env.i := (List.take_append_drop _ _).symm
+  have hlenA : ((elems.map some).take env.i).length = env.i := by simp [hi]
+  have hlen : elems.length + 1 = ((elems.map some).take env.i).length + ((elems.map some).drop env.i).length + 1 := by simp; omega
+  rw [hrun]
+  have hst := array_push_at_state ((elems.map some).take env.i) ((elems.map some).drop env.i) rest env hs hlenA.symm
+  rw [← hsplit, ← hlen] at hst
+  rw [hst]
+  intro v hv
+  rw [List.mem_singleton] at hv
+  subst hv
+  refine ⟨?_, ?_⟩
+  · intro c hc
+    simp only [List.mem_append, List.mem_cons] at hc
+    rcases hc with h | h | h
+    · exact all_some_map elems c (List.mem_of_mem_take h)
+    · rw [h]; simp
+    · exact all_some_map elems c (List.mem_of_mem_drop h)
+  · intro x hx
+    have : some x ∈ (elems.map some).take env.i ++ (elems.map some).drop env.i := by rw [← hsplit]; exact some_mem_map_some.mpr hx
+    simp only [List.mem_append, List.mem_cons] at this ⊢
+    rcases this with h | h
+    · exact Or.inl h
+    · exact Or.inr (Or.inr h)
+
+/-- Array_Set / List_Set: the element is overwritten in place -/
+theorem C01_seq_set_mark_safe (elems : List α) (env : Env α) (hi : env.i < elems.length) :
+    (env.shape = Shape.array → MarkSafe env ((Mach.init elems).exec env (prog .array false .set))) ∧
+    (env.shape = Shape.list → MarkSafe env ((Mach.init elems).exec env (prog .list false .set))) := by
+  have hget : (elems.map some)[env.i]? = some (some elems[env.i]) := by simp [hi]
+  constructor <;> intro hs
+  · apply markSafe_of_views_post
+    · intro v hv
+      simp only [prog, Mach.exec, Mach.instr, arraySet, Mach.run, Mach.step, Mach.view, Mach.init, Mach.initCap, Mach.presented, Mach.pos,
+        List.foldl, List.append_nil, hget, List.mem_singleton] at hv ⊢
+      rw [hv]
+    · intro c hc
+      simp only [prog, Mach.exec, Mach.instr, arraySet, Mach.run, Mach.step, Mach.view, Mach.init, Mach.initCap, Mach.presented, Mach.pos,
+        List.foldl, List.append_nil, hget] at hc
+      rcases mem_presented hc with h | h
+      · rcases List.mem_or_eq_of_mem_set h with h | h
+        · exact all_some_map elems c h
+        · rw [h]; simp
+      · simp only [hs, Shape.array, presented, Bool.false_and, Bool.false_eq_true, if_false, if_true] at hc
+        rw [takePad_of_le (by simp)] at hc
+        have := List.mem_of_mem_take hc
+        rcases List.mem_or_eq_of_mem_set this with h' | h'
+        · exact all_some_map elems c h'
+        · rw [h']; simp
+  · apply markSafe_of_views_post
+    · intro v hv
+      simp only [prog, Mach.exec, Mach.instr, CelloGen.GcMid.listSet, Mach.run, Mach.step, Mach.view, Mach.init, Mach.initCap, Mach.presented, Mach.pos,
+        List.foldl, List.append_nil, hget, List.mem_singleton] at hv ⊢
+      rw [hv]
+    · intro c hc
+      simp only [prog, Mach.exec, Mach.instr, CelloGen.GcMid.listSet, Mach.run, Mach.step, Mach.view, Mach.init, Mach.initCap, Mach.presented, Mach.pos,
+        List.foldl, List.append_nil, hget, hs, presented_list] at hc
+      rcases List.mem_or_eq_of_mem_set hc with h | h
+      · exact all_some_map elems c h
+      · rw [h]; simp
+
+/-- Array_Clear -/
+theorem C01_array_clear_mark_safe (elems : List α) (k : Nat) (env : Env α) (hs : env.shape = Shape.array) :
+    MarkSafe env ((Mach.initCap elems (List.replicate k none)).exec env (prog .array false .clear)) := by
+  apply markSafe_of_views_pre (exec_from env elems _ _ (initCap_from env elems _ (spare_from env elems k)))
+  have hloop := eachLoop_views_pre env arrayClearLoop (elems.map some)
+    (by
+      intro j st hp hv
+      simp only [arrayClearLoop, Mach.run, List.foldl, Mach.step, Mach.view]
+      refine ⟨hp, ?_⟩
+      intro v hvm
+      rcases List.mem_cons.mp hvm with h | h
+      · rw [h]; exact hp
+      · exact hv v h)
+    (List.range elems.length) (Mach.initCap elems (List.replicate k none))
+    (by simp [Mach.presented, presented, hs, Shape.array, Mach.initCap, takePad_map_some])
+    (by simp [Mach.initCap])
+  intro v hv
+  simp only [prog, clearProg, Mach.exec, List.foldl, Mach.instr, arrayClearPre, arrayClearTail, Mach.run, Mach.step, hs, Shape.array,
+    if_true] at hv
+  exact hloop.2 v (by simpa [Mach.initCap] using hv)
+
+/-- Array_Resize (shrinking): `destruct(last); nitems--` — the views are ever shorter prefixes, all at least as long as what stays -/
+theorem C01_array_resize_mark_safe (elems : List α) (env : Env α) (hs : env.shape = Shape.array) :
+    MarkSafe env ((Mach.init elems).exec env (prog .array false .resize)) := by
+  -- invariant of the loop: the block is untouched, nitems only falls, every view is a prefix at least nitems long
+  let I : Mach α → Prop := fun st => st.cells = elems.map some ∧ st.n ≤ elems.length ∧
+    ∀ v ∈ st.views, ∃ t, v.cells = (elems.map some).take t ∧ st.n ≤ t
+  have hI0 : I (Mach.init elems) := ⟨by simp [Mach.init, Mach.initCap], by simp [Mach.init, Mach.initCap], by simp [Mach.init, Mach.initCap]⟩
+  have hstep : ∀ st, I st → env.m < st.n → I (st.run env arrayResizeLoop) := by
+    intro st ⟨hc, hn, hv⟩ _
+    simp only [arrayResizeLoop, Mach.run, List.foldl, Mach.step, Mach.view, Mach.presented, presented, hs, Shape.array, Bool.false_and,
+      Bool.false_eq_true, if_false, if_true]
+    refine ⟨hc, by simp only; omega, ?_⟩
+    intro v hvm
+    rcases List.mem_cons.mp hvm with h | h
+    · refine ⟨st.n, ?_, by simp only; omega⟩
+      rw [h, hc, takePad_of_le (by simpa using hn)]
+    · obtain ⟨t, ht, hle⟩ := hv v h
+      exact ⟨t, ht, by simp only; omega⟩
+  have hloop := whileLoop_inv env arrayResizeLoop I hstep (elems.length + 1) (Mach.init elems) hI0
+  intro v hv
+  simp only [prog, Mach.exec, List.foldl, Mach.instr, arrayResizePre, arrayResizeTail, Mach.run, Mach.step] at hv ⊢
+  have hn0 : (Mach.init elems).n = elems.length := by simp [Mach.init, Mach.initCap]
+  rw [hn0] at hv ⊢
+  obtain ⟨hc, hn, hvs⟩ := hloop
+  obtain ⟨t, ht, hle⟩ := hvs v hv
+  refine ⟨?_, ?_⟩
+  · rw [ht]; exact fun c hcm => all_some_map elems c (List.mem_of_mem_take hcm)
+  · intro x hx
+    right; right
+    simp only [Mach.final, Mach.presented, presented, hs, Shape.array, Bool.false_and, Bool.false_eq_true, if_false, if_true,
+      mem_filterMap_id, hc] at hx
+    rw [ht]
+    rcases mem_takePad_takePad hx with h | h
+    · exact List.take_subset_take_left _ hle h
+    · cases h
+
+/-- List_Pop_At: the cell is unlinked before its element is destructed -/
+theorem C01_list_pop_at_mark_safe (elems : List α) (env : Env α) (hs : env.shape = Shape.list) :
+    MarkSafe env ((Mach.init elems).exec env (prog .list false .popAt)) := list_unlink_safe elems env hs .idx
+
+/-- List_Pop -/
+theorem C01_list_pop_mark_safe (elems : List α) (env : Env α) (hs : env.shape = Shape.list) :
+    MarkSafe env ((Mach.init elems).exec env (prog .list false .pop)) := list_unlink_safe elems env hs .last
+
+/-- List_Rem -/
+theorem C01_list_rem_mark_safe (elems : List α) (env : Env α) (hs : env.shape = Shape.list) :
+    MarkSafe env ((Mach.init elems).exec env (prog .list false .remVal)) := list_unlink_safe elems env hs .idx
+
+/-- List_Push / List_Push_At: the new cell is linked after its element was assigned -/
+theorem C01_list_push_mark_safe (elems : List α) (env : Env α) (hs : env.shape = Shape.list) :
+    MarkSafe env ((Mach.init elems).exec env (prog .list false .push)) ∧
+    MarkSafe env ((Mach.init elems).exec env (prog .list false .pushAt)) := by
+  constructor <;>
+  · apply markSafe_of_views_pre (exec_from env elems _ _ (init_from env elems))
+    intro v hv
+    simp only [prog, Mach.exec, Mach.instr, listPush, listPushAt, Mach.run, Mach.step, Mach.view, Mach.init, Mach.initCap, Mach.presented, hs,
+      presented_list, List.foldl, List.append_nil, List.mem_singleton] at hv
+    rw [hv]
+
+/-- List_Resize (shrinking): `unlink(tail); destruct; free; nitems--` -/
+theorem C01_list_resize_mark_safe (elems : List α) (env : Env α) (hs : env.shape = Shape.list) :
+    MarkSafe env ((Mach.init elems).exec env (prog .list false .resize)) := by
+  let I : Mach α → Prop := fun st => (∃ t, st.cells = (elems.map some).take t ∧
+    ∀ v ∈ st.views, ∃ t', v.cells = (elems.map some).take t' ∧ min t (elems.length) ≤ t')
+  have hI0 : I (Mach.init elems) := ⟨elems.length, by simp [Mach.init, Mach.initCap, List.take_of_length_le], by simp [Mach.init, Mach.initCap]⟩
+  have hstep : ∀ st, I st → env.m < st.n → I (st.run env listResizeLoop) := by
+    intro st ⟨t, hc, hv⟩ _
+    simp only [listResizeLoop, Mach.run, List.foldl, Mach.step, Mach.view, Mach.presented, presented, hs, Shape.list, Bool.false_and,
+      Bool.false_eq_true, if_false, Mach.pos]
+    have herase : st.cells.eraseIdx (st.cells.length - 1) = (elems.map some).take (min t elems.length - 1) := by
+      rw [hc, List.eraseIdx_eq_take_drop_succ]
+      have hl : ((elems.map some).take t).length = min t elems.length := by simp
+      rw [hl, List.take_take]
+      by_cases h0 : min t elems.length = 0
+      · have : (List.take t (List.map some elems)) = [] := by
+          apply List.eq_nil_of_length_eq_zero; rw [hl]; exact h0
+        simp [h0, this]
+      · have h1 : min t elems.length - 1 + 1 = min t elems.length := by omega
+        rw [h1, List.drop_of_length_le (by rw [hl]; exact Nat.le_refl _), List.append_nil]
+        congr 1; omega
+    refine ⟨min t elems.length - 1, herase, ?_⟩
+    intro v hvm
+    rcases List.mem_cons.mp hvm with h | h
+    · exact ⟨min t elems.length - 1, by rw [h]; exact herase, by omega⟩
+    · obtain ⟨t', ht', hle⟩ := hv v h
+      exact ⟨t', ht', by omega⟩
+  have hloop := whileLoop_inv env listResizeLoop I hstep (elems.length + 1) (Mach.init elems) hI0
+  intro v hv
+  simp only [prog, Mach.exec, List.foldl, Mach.instr] at hv ⊢
+  have hn0 : (Mach.init elems).n = elems.length := by simp [Mach.init, Mach.initCap]
+  rw [hn0] at hv ⊢
+  obtain ⟨t, hc, hvs⟩ := hloop
+  obtain ⟨t', ht', hle⟩ := hvs v hv
+  refine ⟨?_, ?_⟩
+  · rw [ht']; exact fun c hcm => all_some_map elems c (List.mem_of_mem_take hcm)
+  · intro x hx
+    right; right
+    simp only [Mach.final, Mach.presented, presented, hs, Shape.list, Bool.false_and, Bool.false_eq_true, if_false,
+      mem_filterMap_id, hc] at hx
+    rw [ht']
+    have : (elems.map some).take t = (elems.map some).take (min t elems.length) := by
+      rw [List.take_eq_take_iff]; simp
+    rw [this] at hx
+    exact List.take_subset_take_left _ hle hx
+
+/-- List_Concat: `List_Push` of every element of the source — the list only grows, by constructed elements -/
+theorem C01_list_concat_mark_safe (elems : List α) (env : Env α) (hs : env.shape = Shape.list) :
+    MarkSafe env ((Mach.init elems).exec env (prog .list false .concat)) := by
+  apply markSafe_of_views_cover (exec_from env elems _ _ (init_from env elems))
+  let I : Mach α → Prop := fun st => Good elems st.cells ∧ ∀ v ∈ st.views, Good elems v.cells
+  have hI0 : I (Mach.init elems) := by
+    refine ⟨⟨?_, ?_⟩, by simp [Mach.init, Mach.initCap]⟩
+    · simpa [Mach.init, Mach.initCap] using all_some_map elems
+    · intro x hx; simpa [Mach.init, Mach.initCap] using hx
+  have hstep : ∀ j st, I st → I (st.run { env with j := j } listPush) := by
+    intro j st ⟨hg, hv⟩
+    simp only [listPush, Mach.run, List.foldl, Mach.step, Mach.view, Mach.presented, hs, presented_list]
+    refine ⟨⟨?_, ?_⟩, ?_⟩
+    · intro c hc
+      rcases (List.mem_insertIdx (linkPos_le _ _ _)).mp hc with h | h
+      · rw [h]; simp
+      · exact hg.1 c h
+    · intro x hx
+      exact (List.mem_insertIdx (linkPos_le _ _ _)).mpr (Or.inr (hg.2 x hx))
+    · intro v hvm
+      rcases List.mem_cons.mp hvm with h | h
+      · rw [h]; exact hg
+      · exact hv v h
+  have hloop := eachLoop_inv env listPush I hstep (List.range env.src.length) (Mach.init elems) hI0
+  intro v hv
+  simp only [prog, Mach.exec, List.foldl, Mach.instr] at hv
+  exact hloop.2 v hv
+
+/-- Table_Set_Move: the new entry is built in the swap space; the old entry (if the key exists) is destructed in its slot, then overwritten -/
+theorem C01_table_set_mark_safe (elems : List α) (env : Env α) (hs : env.shape = Shape.table) :
+    MarkSafe env ((Mach.init elems).exec env (prog .table false .set)) ∧
+    MarkSafe env ((Mach.init elems).exec env (prog .table false .setNew)) := by
+  constructor
+  · apply markSafe_of_views_pre (exec_from env elems _ _ (init_from env elems))
+    intro v hv
+    simp only [prog, Mach.exec, Mach.instr, tableSetNew, tableSetEqual, List.cons_append, List.nil_append, Mach.run, Mach.step,
+      Mach.view, Mach.init, Mach.initCap, Mach.presented, hs, presented_table, List.foldl, List.append_nil, List.mem_cons, List.mem_nil_iff,
+      or_false] at hv
+    rcases hv with rfl | rfl | rfl | rfl <;> rfl
+  · apply markSafe_of_views_pre (exec_from env elems _ _ (init_from env elems))
+    intro v hv
+    simp only [prog, Mach.exec, Mach.instr, tableSetNew, tableSetEmpty, List.cons_append, List.nil_append, Mach.run, Mach.step,
+      Mach.view, Mach.init, Mach.initCap, Mach.presented, hs, presented_table, List.foldl, List.append_nil, List.mem_cons, List.mem_nil_iff,
+      or_false, apply_ite Mach.views] at hv
+    rcases hv with rfl | rfl <;> rfl
+
+/-- Table_Rem: key and value are destructed in their slot, then the slot is cleared -/
+theorem C01_table_rem_mark_safe (elems : List α) (env : Env α) (hs : env.shape = Shape.table) :
+    MarkSafe env ((Mach.init elems).exec env (prog .table false .remKey)) := by
+  apply markSafe_of_views_pre (exec_from env elems _ _ (init_from env elems))
+  intro v hv
+  simp only [prog, Mach.exec, Mach.instr, tableRem, Mach.run, Mach.step, Mach.view, Mach.init, Mach.initCap, Mach.presented, hs,
+    presented_table, List.foldl, List.append_nil, List.mem_cons, List.mem_nil_iff, or_false] at hv
+  rcases hv with h | h <;> rw [h]
+
+/-- Table_Clear -/
+theorem C01_table_clear_mark_safe (elems : List α) (env : Env α) (hs : env.shape = Shape.table) :
+    MarkSafe env ((Mach.init elems).exec env (prog .table false .clear)) := by
+  apply markSafe_of_views_pre (exec_from env elems _ _ (init_from env elems))
+  have hloop := eachLoop_views_pre env tableClearLoop (elems.map some)
+    (by
+      intro j st hp hv
+      simp only [tableClearLoop, Mach.run, List.foldl, Mach.step, Mach.view]
+      refine ⟨hp, ?_⟩
+      intro v hvm
+      rcases List.mem_cons.mp hvm with h | h
+      · rw [h]; exact hp
+      · rcases List.mem_cons.mp h with h | h
+        · rw [h]; exact hp
+        · exact hv v h)
+    (List.range elems.length) (Mach.init elems)
+    (by simp [Mach.presented, hs, presented_table, Mach.init, Mach.initCap])
+    (by simp [Mach.init, Mach.initCap])
+  intro v hv
+  simp only [prog, clearProg, Mach.exec, List.foldl, Mach.instr, tableClearTail, Mach.run, Mach.step, hs, Shape.table] at hv
+  exact hloop.2 v (by simpa [Mach.init, Mach.initCap] using hv)
+
+/-- Table_Assign: Table_Clear (every destructor sees the table as it was), then `Table_Set_Move` of every entry of the source into the emptied
+    table (every Assign call sees the entries stored so far) -/
+theorem C01_table_assign_mark_safe (elems : List α) (env : Env α) (hs : env.shape = Shape.table) :
+    MarkSafe env ((Mach.init elems).exec env (prog .table false .assign)) := by
+  -- the clearing loop: nothing but views changes
+  let I : Mach α → Prop := fun st => st.cells = elems.map some ∧ st.out = none ∧ st.pend = none ∧ ∀ v ∈ st.views, v.cells = elems.map some
+  have hI0 : I (Mach.init elems) := by simp [I, Mach.init, Mach.initCap]
+  have hI : ∀ j st, I st → I (st.run { env with j := j } tableClearLoop) := by
+    intro j st ⟨hc, ho, hp, hv⟩
+    simp only [tableClearLoop, Mach.run, List.foldl, Mach.step, Mach.view, Mach.presented, hs, presented_table]
+    refine ⟨hc, ho, hp, ?_⟩
+    intro v hvm
+    rcases List.mem_cons.mp hvm with h | h
+    · rw [h]; exact hc
+    · rcases List.mem_cons.mp h with h | h
+      · rw [h]; exact hc
+      · exact hv v h
+  have h1 := eachLoop_inv env tableClearLoop I hI (List.range elems.length) (Mach.init elems) hI0
+  -- the filling loop: the table holds constructed elements of the source only
+  let J : Mach α → Prop := fun st => st.From env [] ∧ (∀ c ∈ st.cells, c ≠ none) ∧
+    ∀ v ∈ st.views, ∀ c ∈ v.cells, c ≠ none
+  have hJ : ∀ j st, J st → J (st.run { env with j := j } (tableSetNew ++ tableSetEmpty)) := by
+    intro j st ⟨hf, hc, hv⟩
+    refine ⟨run_from { env with j := j } [] _ st hf, ?_, ?_⟩
+    · simp only [tableSetNew, tableSetEmpty, List.cons_append, List.nil_append, Mach.run, List.foldl, Mach.step, Mach.view, Mach.pos]
+      intro c hcm
+      by_cases hlt : env.i < st.cells.length
+      · simp only [hlt, ↓reduceIte] at hcm
+        rcases List.mem_or_eq_of_mem_set hcm with h | h
+        · exact hc c h
+        · rw [h]; simp
+      · simp only [hlt, ↓reduceIte] at hcm
+        rcases List.mem_append.mp hcm with h | h
+        · exact hc c h
+        · rw [List.mem_singleton] at h; rw [h]; simp
+    · simp only [tableSetNew, tableSetEmpty, List.cons_append, List.nil_append, Mach.run, List.foldl, Mach.step, Mach.view, Mach.presented, hs,
+        presented_table]
+      intro v hvm
+      rcases List.mem_cons.mp hvm with h | h
+      · rw [h]; exact hc
+      · rcases List.mem_cons.mp h with h | h
+        · rw [h]; exact hc
+        · exact hv v h
+  intro v hv
+  simp only [prog, clearProg, List.cons_append, List.nil_append, Mach.exec, List.foldl, Mach.instr, hs, Shape.table, Bool.false_eq_true, if_false] at hv ⊢
+  have hlen : (Mach.init elems).cells.length = elems.length := by simp [Mach.init, Mach.initCap]
+  rw [hlen] at hv ⊢
+  generalize Mach.eachLoop env tableClearLoop (List.range elems.length) (Mach.init elems) = st1 at h1 hv ⊢
+  obtain ⟨hc1, ho1, hp1, hv1⟩ := h1
+  have hJ1 : J (st1.run env tableClearTail) := by
+    simp only [tableClearTail, Mach.run, List.foldl, Mach.step]
+    refine ⟨⟨by simp, by simp [ho1], by simp [hp1]⟩, by simp, ?_⟩
+    intro w hw c hcm
+    rw [hv1 w hw] at hcm
+    exact all_some_map elems c hcm
+  have h2 := eachLoop_inv env (tableSetNew ++ tableSetEmpty) J hJ (List.range env.src.length) _ hJ1
+  obtain ⟨hf2, _, hv2⟩ := h2
+  refine ⟨hv2 v hv, fun x hx => ?_⟩
+  rcases final_from hf2 hx with h | h | h
+  · cases h
+  · exact Or.inl h
+  · exact Or.inr (Or.inl h)
+
+/-- Tree_Rem: key and value are destructed while the node is linked; Tree_Set of a new key: the node is linked after its key and value were assigned -/
+theorem C01_tree_rem_setnew_mark_safe (elems : List α) (env : Env α) (hs : env.shape = Shape.tree) :
+    MarkSafe env ((Mach.init elems).exec env (prog .tree false .remKey)) ∧
+    MarkSafe env ((Mach.init elems).exec env (prog .tree false .setNew)) ∧
+    MarkSafe env ((Mach.init elems).exec env (prog .tree true .setNew)) := by
+  refine ⟨?_, ?_, ?_⟩ <;>
+  · apply markSafe_of_views_pre (exec_from env elems _ _ (init_from env elems))
+    intro v hv
+    simp only [prog, Mach.exec, Mach.instr, treeRem, treeSetLeft, treeSetRoot, Mach.run, Mach.step, Mach.view, Mach.init, Mach.initCap, Mach.presented,
+      hs, presented_tree_init, List.foldl, List.append_nil, List.mem_cons, List.mem_nil_iff, or_false, if_true, Bool.false_eq_true, if_false,
+      apply_ite Mach.views] at hv
+    rcases hv with rfl | rfl <;> rfl
+
+/-- Tree_Set of a key that is there: key and value are assigned in place, in the linked node -/
+theorem C01_tree_set_mark_safe (elems : List α) (env : Env α) (hs : env.shape = Shape.tree) (hi : env.i < elems.length) :
+    MarkSafe env ((Mach.init elems).exec env (prog .tree false .set)) := by
+  have hget : (elems.map some)[env.i]? = some (some elems[env.i]) := by simp [hi]
+  have hn : ¬ (elems.length = 0) := by omega
+  have hpres : ∀ cells : List (Cell α), presented Shape.tree cells elems.length = cells := by
+    intro cells; simp [presented, Shape.tree, hn]
+  intro v hv
+  simp only [prog, Mach.exec, Mach.instr, treeSetEqual, Mach.run, Mach.step, Mach.view, Mach.init, Mach.initCap, Mach.presented, Mach.pos,
+    hs, hpres, List.foldl, List.append_nil, hget, List.mem_cons, List.mem_nil_iff, or_false, Mach.final] at hv ⊢
+  have hall : ∀ c ∈ (elems.map some).set env.i (some env.val), c ≠ none := by
+    intro c hc
+    rcases List.mem_or_eq_of_mem_set hc with h | h
+    · exact all_some_map elems c h
+    · rw [h]; simp
+  rcases hv with rfl | rfl
+  · -- inside Assign of the value: the node already holds the new value
+    refine ⟨hall, fun x hx => Or.inr (Or.inr (mem_filterMap_id.mp hx))⟩
+  · -- inside Assign of the key: the tree as it was
+    refine ⟨all_some_map elems, fun x hx => ?_⟩
+    rcases List.mem_or_eq_of_mem_set (mem_filterMap_id.mp hx) with h | h
+    · exact Or.inr (Or.inr h)
+    · have hx' : x = env.val := by simpa using h
+      rcases from_val env elems with h0 | ⟨y, hy, hfrom⟩
+      · cases h0
+      · have : y = x := by rw [hx'] ; exact (Option.some.inj hy).symm
+        subst this
+        rcases hfrom with h1 | h1 | h1
+        · exact Or.inr (Or.inr (some_mem_map_some.mpr h1))
+        · exact Or.inl h1
+        · exact Or.inr (Or.inl h1)
+
+/-! known findings: the full statements, refuted on the model (which runs the statement order of the source), and what does hold -/
+
+def C01_list_clear_mark_safe_statement : Prop :=
+  ∀ (elems : List Nat) (env : Env Nat), env.shape = Shape.list → MarkSafe env ((Mach.init elems).exec env (prog .list false .clear))
+
+/-- **KF-C01-clear-freed-cells (List).**  `List_Clear` frees each cell right after its destructor while `l->head` and the links still lead to it:
+    a collection inside the destructor of the SECOND element walks the freed first cell. -/
+theorem C01_list_clear_mark_safe_refuted : ¬ C01_list_clear_mark_safe_statement := by
+  intro h
+  have h2 := h [1, 2] { shape := Shape.list, zero := 0 } rfl ⟨Tag.dtor, [none, some 2]⟩
+    (by simp [prog, clearProg, Mach.exec, Mach.instr, Mach.eachLoop, listClearPre, listClearLoop, listClearTail, Mach.run, Mach.step, Mach.view,
+          Mach.init, Mach.initCap, Mach.presented, presented, Shape.list, Mach.pos, List.range, List.range.loop])
+  exact h2.1 none (by simp) rfl
+
+/-- … the destructor of the FIRST element sees the whole list -/
+theorem C01_list_clear_first_call_partial (elems : List α) (env : Env α) (hs : env.shape = Shape.list) :
+    ((Mach.init elems).run { env with j := 0 } listClearLoop).views = [⟨Tag.dtor, elems.map some⟩] := by
+  simp [listClearLoop, Mach.run, Mach.step, Mach.view, Mach.init, Mach.initCap, Mach.presented, presented, hs, Shape.list]
+
+def C01_tree_clear_mark_safe_statement : Prop :=
+  ∀ (elems : List Nat) (env : Env Nat), env.shape = Shape.tree → MarkSafe env ((Mach.init elems).exec env (prog .tree false .clear))
+
+/-- **KF-C01-clear-freed-cells (Tree).**  `Tree_Clear_Entry` frees a node (post-order) while its parent still links it and `m->root` is set:
+    a collection inside a destructor of any node but the first walks freed nodes. -/
+theorem C01_tree_clear_mark_safe_refuted : ¬ C01_tree_clear_mark_safe_statement := by
+  intro h
+  have h2 := h [1, 2] { shape := Shape.tree, zero := 0 } rfl ⟨Tag.dtor, [none, some 2]⟩
+    (by simp [prog, clearProg, expand, Mach.exec, Mach.instr, Mach.eachLoop, treeClear, treeClearEntry, Mach.run, Mach.step, Mach.view,
+          Mach.init, Mach.initCap, Mach.presented, presented, Shape.tree, treeMarkEmptyWhenLen0, Mach.pos, List.range, List.range.loop])
+  exact h2.1 none (by simp) rfl
+
+theorem C01_tree_clear_first_call_partial (elems : List α) (env : Env α) (hs : env.shape = Shape.tree) (hne : elems ≠ []) :
+    ((Mach.init elems).run { env with j := 0 } treeClearEntry).views = [⟨Tag.dtor, elems.map some⟩, ⟨Tag.dtorKey, elems.map some⟩] := by
+  have : ¬ (elems.length = 0) := fun h => hne (List.eq_nil_of_length_eq_zero h)
+  simp [treeClearEntry, Mach.run, Mach.step, Mach.view, Mach.init, Mach.initCap, Mach.presented, presented, hs, Shape.tree, this]
+
+def C01_array_fill_mark_safe_statement : Prop :=
+  ∀ (elems : List Nat) (env : Env Nat), env.shape = Shape.array →
+    MarkSafe env ((Mach.init elems).exec env (prog .array false .assign)) ∧ MarkSafe env ((Mach.init elems).exec env (prog .array false .concat))
+
+/-- **KF-C01-array-uninit-slots.**  `Array_Assign` sets `nitems = len(obj)` over a fresh `malloc` block (and `Array_Concat` adds `len(obj)` to
+    `nitems` before the new slots exist): a collection inside the Assign instance of any element but the last makes `Array_Mark` read slots
+    that hold no element yet. -/
+theorem C01_array_fill_mark_safe_refuted : ¬ C01_array_fill_mark_safe_statement := by
+  intro h
+  have h2 := (h [] { shape := Shape.array, zero := 0, src := [1, 2] } rfl).1 ⟨Tag.asg, [some 1, none]⟩
+    (by simp [prog, clearProg, expand, Mach.exec, Mach.instr, Mach.eachLoop, arrayAssignHead, arrayAssignLoop, arrayAssignTail, arrayClearPre,
+          arrayClearLoop, arrayClearTail, Mach.run, Mach.step, Mach.view, Mach.init, Mach.initCap, Mach.presented, presented, Shape.array, Mach.pos,
+          List.range, List.range.loop, Env.val, takePad])
+  exact h2.1 none (by simp) rfl
+
+
+/-! ### from the intermediate states to the property -/
+
+/-- **A collection inside a container operation.**  `h` is the heap while the container at `a` is in an intermediate state `e.obj`; `post` is
+    the container when the operation has completed.  If the intermediate state presents every word `post` presents, except words of the
+    operand (`extra`, held by the caller's frame), then whatever is reachable — from thread-local storage, a root-registered entry or the
+    stack — when the operation completes is not put on the pending list by a collection that runs now, stays registered, unchanged. -/
+theorem C01_mid_collection_safe {σ : Type} (S : MarkSet σ) (c : Cfg) (h : Heap) (wf : h.WF) (thread : Obj) (stack extra : List Word)
+    (a : Addr) (e : Entry) (hl : h.lookup a = some e) (post : Obj)
+    (hcov : ∀ w ∈ fields c post, w ∈ fields c e.obj ∨ w ∈ extra)
+    (x : Addr) (hr : Reachable c (h.write a post) (rootWords c (h.write a post) thread stack) x) :
+    (collect S c h thread (stack ++ extra)).1.lookup x = h.lookup x ∧ (h.lookup x).isSome = true ∧
+      x ∉ (collect S c h thread (stack ++ extra)).2 :=
+  mid_collection_safe S c h wf thread stack extra a e hl post hcov x hr
+
+/-- **…for every operation with mark-safe intermediate states** (all the `C01_*_mark_safe` theorems above): the container of embedded elements
+    at `a` is, inside the element call of view `v`, the container `.cont ty v.elems`; when the operation completes it is `.cont ty (r.final env)`.
+    A collection inside that call (the operand's words on the stack) keeps everything that is reachable when the operation completes. -/
+theorem C01_mid_op_collection_safe {σ : Type} (S : MarkSet σ) (c : Cfg) (h : Heap) (wf : h.WF) (thread : Obj) (stack : List Word)
+    (a : Addr) (root : Bool) (ty : String) (env : Env Obj) (r : Mach Obj) (hsafe : MarkSafe env r) (v : View Obj) (hv : v ∈ r.views)
+    (hl : h.lookup a = some ⟨.cont ty v.elems, root⟩)
+    (x : Addr) (hr : Reachable c (h.write a (.cont ty (r.final env))) (rootWords c (h.write a (.cont ty (r.final env))) thread stack) x) :
+    (collect S c h thread (stack ++ (fieldsL c env.src ++ fields c env.zero))).1.lookup x = h.lookup x ∧ (h.lookup x).isSome = true ∧
+      x ∉ (collect S c h thread (stack ++ (fieldsL c env.src ++ fields c env.zero))).2 :=
+  mid_collection_safe S c h wf thread stack _ a _ hl _ (fields_covered_of_markSafe c ty hsafe hv) x hr
+
+/-! ### the class of seeded change c01_h, and non-vacuity -/
+
+/-- **`a->nitems--` in front of `destruct(Array_Item(a, i))`** (seeded change c01_h; the memmove count then reads `a->nitems - i`): inside the
+    destructor of element 0 of [1, 2, 3] `Array_Mark` stops before element 3, which the Array keeps. -/
+theorem C01_array_pop_at_dec_first_refuted :
+    ¬ ∀ (elems : List Nat) (env : Env Nat), env.shape = Shape.array → env.i < elems.length →
+        MarkSafe env ((Mach.init elems).exec env [.seq [.dec, .destruct .idx, .moveDown 0, .reserveLess]]) := by
+  intro h
+  have h2 := h [1, 2, 3] { shape := Shape.array, zero := 0 } rfl (by decide) ⟨Tag.dtor, [some 1, some 2]⟩
+    (by simp [Mach.exec, Mach.instr, Mach.run, Mach.step, Mach.view, Mach.init, Mach.initCap, Mach.presented, presented, Shape.array, takePad,
+          moveDown, moveCount])
+  have h3 := h2.2 3 (by simp [Mach.exec, Mach.instr, Mach.run, Mach.step, Mach.view, Mach.init, Mach.initCap, Mach.presented, presented,
+    Shape.array, takePad, moveDown, moveCount, Mach.final])
+  simp at h3
+
+/-- the current source on a concrete Array: one destructor call, which sees [10, 20, 30]; [20, 30] stay -/
+example : ((runOp .array .popAt { shape := Shape.array, zero := 0, i := 0 } [10, 20, 30]).views.map (·.cells) = [[some 10, some 20, some 30]]) ∧
+    (runOp .array .popAt { shape := Shape.array, zero := (0 : Nat), i := 0 } [10, 20, 30]).final { shape := Shape.array, zero := 0 } = [20, 30] := by
+  decide
+
+/-- the hypotheses of `C01_mid_op_collection_safe` are met by a concrete, non-trivial state: the Array at 4096 holds Refs to 4160 and 4224,
+    element 0 is being popped, a collection runs inside its destructor with no other root than the Array: 4224 (kept) survives -/
+example : MarkSafe { shape := Shape.array, zero := Obj.raw "Ref" [0], i := 0 }
+      ((Mach.init [Obj.raw "Ref" [4160], Obj.raw "Ref" [4224]]).exec { shape := Shape.array, zero := Obj.raw "Ref" [0], i := 0 } (prog .array false .popAt)) :=
+  C01_array_pop_at_mark_safe _ [] _ rfl (by decide)
+
+end Cello.Heap.Mid
